@@ -113,6 +113,10 @@ func TestC12(t *testing.T) {
 				strayPod("ns", "old-n2", "n2", map[string]string{"app": "agent"}, "old")},
 			raw: true, alpha: &w.Alpha{Annots: []string{"old-daemonset-"}}, budget: 1},
 	}
+	// the user quarantines a canary pod (removes the ExtendedDaemonSet's name label so that its controller lets go of it)
+	// and validates the canary: from the removal on the pod is an unrelated pod
+	scs = append(scs, scOpt{name: "S6-quarantined-canary-pod", nodes: []string{"n1", "n2"}, eds: []w.EDSOpt{w.WithCanary("1", 0, 0, "manual")},
+		first: []w.Event{evb("setTemplate", edsKey, "B")}, alpha: &w.Alpha{PodDev: []string{"quarantine"}, Kubectl: []string{"canary-validate"}}, budget: 2})
 	runWorld(t, run, scs, []func(*w.MonCtx){w.MonC12}, 0)
 	requireAntecedents(run, "C12/write")
 	exit(run.Finish("BFS over all interleavings of the reconciles of two ExtendedDaemonSets (same name in two namespaces / two names in one namespace / canary + namesake / DaemonSet migration with overlapping selectors) with template changes and validation as deviations; every write is checked against the ownership reference; non-trivial = scenarios"))
